@@ -12,6 +12,8 @@ TRUST = ("Trusted base: the AST instrumenter and simrt scheduler (syntactic rewr
          "Sampling, not enumeration: a clean batch is evidence, not proof. Standard library, codec and generated code are atomic to the scheduler.")
 
 CLAIMED = {
+    "C12": ("5/C12", "Seeded search over the instant of Shutdown relative to in-flight, queued and still-arriving requests x handler durations x pool sizes (0 and N, checked separately) x queue capacities x context time-outs x interleavings of accept loop, receive loops, handlers, pool dispatcher and the shutdown poller, with the real TarsServer/tcpHandler/gpool and scripted raw clients; "
+            "oracles from the simnet record: every request frame the server completely read is executed and (two-way) answered before the server closes that connection, connected clients get the reconnect notification (id 0) before the close, Shutdown returns only when all connections are closed or its context expired, and within 5 simulated seconds of whichever comes first."),
     "C07": ("5/C07", "Seeded search over partitions of the byte stream (write chunking down to single bytes, cuts inside the 4-byte prefix, coalescing, pauses, read fragmentation, back-pressure) x frame-length sequences (4, 5, around 4096, max-1, max, illegal prefixes) x maximum-length settings x schedules, against the real server receive loop (with and without worker pool) and the real client receive loop with recording protocol layers; "
             "oracle: the packets handed to the protocol layer equal the legal frames written before the first illegal prefix (same bytes, once, in order; multiset under a pool), a frame of exactly the maximum is delivered, an illegal prefix closes that connection only and nothing after it is delivered."),
     "C08": ("5/C08", "Seeded search over interleavings of concurrent callers, the client's sender/receiver goroutines and per-packet Recv goroutines of the real ServantProxy/AdapterProxy/TarsClient against a scripted peer that answers in any order, late, duplicated, with stray ids and id-0 push frames (independent reference codec); "
